@@ -111,8 +111,9 @@ def lit(*v):
     return P("lit", *v)
 
 
-def enum(name, *v):
-    return P("enum", *v, name=name)
+def enum(name, *v, mixin=None):
+    """mixin: "str" / "int" -> class <name>(<mixin>, Enum)"""
+    return P("enum", *v, name=name, mixin=mixin) if mixin else P("enum", *v, name=name)
 
 
 def newtype(name, s, **schema):
@@ -368,7 +369,7 @@ def source(root: Sp, extra_src: str = "") -> str:
     ]
     for name, d in named(root).items():
         if d.k == "enum":
-            lines.append(f"class {name}(Enum):")
+            lines.append(f"class {name}({d.opt('mixin')}, Enum):" if d.opt("mixin") else f"class {name}(Enum):")
             for i, v in enumerate(d.a):
                 lines.append(f"    m{i} = {v!r}")
         elif d.k == "sub":
